@@ -63,6 +63,30 @@ def main():
 
     # 3. correspondence
     mod = importlib.import_module(f"corr_{pid}")
+
+    # watchdog: code under test that blocks or spins outside the modelled synchronisation
+    # points (e.g. a different lock class polling in a sleep loop) must end in a verdict,
+    # not in a check that never returns
+    import threading
+    budget = float(os.environ.get("VERIF_WATCHDOG", "1800" if args.tier == "quick" else "14400"))
+
+    def _expired():
+        V.disagreement("correspondence harness",
+                       dict(error=f"the correspondence run did not finish within {budget:.0f} s"),
+                       "harness completes", "the implementation blocks or spins outside the modelled synchronisation points "
+                       "(or is far slower than the unchanged tree)", None)
+        cov0 = dict(obligations=max(ob["obligations"], 1), discharged=ob["discharged"],
+                    checker_cmd="watchdog expired", trusted_base=common.GLOBAL_TRUSTED, theorems=ob["theorems"],
+                    print_assumptions=ob["assumptions"], evaluations=0, distinct_nontrivial=0,
+                    rule="watchdog expired before the correspondence run finished", samples=[])
+        rc0 = V.finish(cov0, ["watchdog expired"])
+        common.log(f"[{pid}] tier={args.tier} seed={args.seed} WATCHDOG after {budget:.0f}s rc={rc0}")
+        sys.stdout.flush()
+        os._exit(rc0 or 1)
+
+    wd = threading.Timer(budget, _expired)
+    wd.daemon = True
+    wd.start()
     ctx = dict(tier=args.tier, seed=args.seed, replay=None)
     if args.replay:
         ctx["replay"] = json.load(open(args.replay))
@@ -92,6 +116,7 @@ def main():
         coverage["coqchk"] = chk
     assumptions = list(getattr(mod, "ASSUMPTIONS", []))
     assumptions.append("axioms reported by Print Assumptions: " + (", ".join(axioms) if axioms else "none (closed under the global context)"))
+    wd.cancel()
     rc = V.finish(coverage, assumptions)
     common.log(f"[{pid}] tier={args.tier} seed={args.seed} wall={time.time()-t0:.1f}s "
                f"obligations={ob['discharged']}/{ob['obligations']} evaluations={cov.get('evaluations')} rc={rc}")
